@@ -1,6 +1,7 @@
 """Fail-closed translators: Coq data regenerated from /repo's current source on every run."""
-from harness.tables import consts
+from harness.tables import consts, reorder_rules
 
 ALL_TABLES = [
     ("Consts", consts.generate),
+    ("ReorderRules", reorder_rules.generate),
 ]
